@@ -1251,3 +1251,28 @@ Proof.
     exists (o1 ++ o2). rewrite (helper_app reads n k bridging o1 o2 _ s1 t1 E1 Hu1).
     rewrite Hu1. cbn [is_nil negb]. rewrite E2. eexists. split; [reflexivity|]. cbn [r_complete]. rewrite Hu2. reflexivity.
 Qed.
+
+(* ---------------------------------------------------------------------------------------------- *)
+(* 11. the tabulated evaluators used on large read sets are the specification predicates           *)
+
+Lemma forallb_map {A B} (f : B -> bool) (g : A -> B) l : forallb f (map g l) = forallb (fun x => f (g x)) l.
+Proof. induction l as [|a l IH]; simpl; [reflexivity | rewrite IH; reflexivity]. Qed.
+
+Lemma existsb_map {A B} (f : B -> bool) (g : A -> B) l : existsb f (map g l) = existsb (fun x => f (g x)) l.
+Proof. induction l as [|a l IH]; simpl; [reflexivity | rewrite IH; reflexivity]. Qed.
+
+Lemma forallb_ext_in {A} (f g : A -> bool) l : (forall x, In x l -> f x = g x) -> forallb f l = forallb g l.
+Proof.
+  induction l as [|a l IH]; intro H; simpl; [reflexivity|].
+  rewrite (H a (or_introl eq_refl)), IH; [reflexivity|]. intros x Hx. apply H. right. exact Hx.
+Qed.
+
+Theorem fast_evaluators_agree : forall reads n k selected,
+  cap_ok_fast reads n k selected = cap_ok reads n k selected /\
+  maximal_ok_fast reads n k selected = maximal_ok reads n k selected.
+Proof.
+  intros reads n k selected. split.
+  - unfold cap_ok_fast, cap_ok, count_table. rewrite forallb_map. reflexivity.
+  - unfold maximal_ok_fast, maximal_ok, blocked, count_table.
+    apply forallb_ext_in. intros ri _. rewrite existsb_map. reflexivity.
+Qed.
